@@ -192,20 +192,16 @@ def r3_sq_wake(r, facts):
     sqe.expect_const(r, fm, 'Submissions::wake/request', 16, facts.const('io_uring::libc::IORING_MSG_DATA'), 'addr = IORING_MSG_DATA')
     d = fm.get(4)
     r.require(d is not None and any(rt[0] == 'call' and rt[1].endswith('ring_fd') for rt in d['roots']), 'Submissions::wake/request/@4', 'the message is not addressed to the ring\'s own fd: %s' % (d and sorted(map(str, d['roots']))), cl.where())
-    # flush: every path from a successful add to return passes enter
+    # flush: every path from a successful add to return passes enter; a full queue is retried, never given up
     if adds:
+        from .kernel import result_edges
         al, at = adds[0]
-        for si in f.enum_switches('std::result::Result'):
-            if si['place']['l'] == at['dest']['l'] and not si['place']['p']:
-                ok_e = f.variant_edge(si, 'Ok')
-                r.require(f.dominates(enters[0][0], f.term_loc(si['bb'])) or all(f.forward_paths_hit([Loc(ok_e[1], 0)], f.returns(), blockers=[l for l, _ in enters]) is None for _ in [0]),
-                          'Submissions::wake/not-flushed', 'a queued wake message can be left unsubmitted (no enter after add)', f.where(al))
-                # Err edge loops back to add
-                err_e = f.variant_edge(si, 'Err')
-                hit = f.forward_paths_hit([Loc(err_e[1], 0)], f.returns(), blockers=[al])
-                r.require(hit is None, 'Submissions::wake/full-gives-up', 'when the queue is full wake() returns without having queued the message', f.where(al))
-        ent = enters[0]
-        r.require(any(f.forward_paths_hit([Loc(at['target'], 0)], [ent[0]]) for _ in [0]), 'Submissions::wake/enter-after-add', 'enter is not reachable after add', f.where(al))
+        re_ = result_edges(f, at)
+        if r.require(re_ is not None and re_[0] and re_[1], 'Submissions::wake/add-result', 'how the result of add is handled was not recognised (neither a match nor `?`)', f.where(al)):
+            ok_e, err_e = re_
+            hit = f.forward_paths_hit([Loc(err_e[1], 0)], f.returns(), blockers=[al])
+            r.inst('QueueFull => retry', f.where(al))
+            r.require(hit is None, 'Submissions::wake/full-gives-up', 'when the submission queue is full wake() returns without having queued the wake message (the polling thread is already marked awoken, so later wakes are skipped too: the wake-up is lost)', f.where(hit[0]) if hit else f.where(al))
         hit = f.forward_paths_hit([Loc(at['target'], 0)], f.returns(), blockers=[l for l, _ in enters])
         r.require(hit is None, 'Submissions::wake/not-flushed', 'a path from add to return skips Shared::enter: the message stays in the queue until somebody else submits', f.where(al))
     # single issuer edge
